@@ -280,7 +280,8 @@ func main() {
 	nTyped := 0
 	entryNames := map[string]bool{}
 	haveRecoverInternal, haveParseFile := false, false
-	var serviceSpawns []string
+	var serviceSpawns, regexps []string
+	regexpSeen := map[string]bool{}
 	pass := 1
 	scan := func(dir string) {
 		matches, _ := filepath.Glob(filepath.Join(repo, dir, "*.go"))
@@ -368,11 +369,16 @@ func main() {
 						line := fmt.Sprintf("mkSpawn %s %s %d %s %s %d %s", q(dir), q(encl), ord, q(target), b(resolved), level, qlist(sinks))
 						if pass == 1 {
 							spawns = append(spawns, line)
-						} else {
+						} else if dir == "pkg/api" || dir == "cmd/esbuild" || dir == "pkg/cli" {
 							serviceSpawns = append(serviceSpawns, line)
 						}
 						ord++
 					case *ast.CallExpr:
+						if t := exprText(v.Fun); (t == "regexp.MustCompile" || t == "regexp.Compile" || t == "regexp.MustCompilePOSIX" || t == "regexp.CompilePOSIX") && len(v.Args) == 1 && !regexpSeen[fset.Position(v.Pos()).String()] {
+							regexpSeen[fset.Position(v.Pos()).String()] = true
+							_, isLit := v.Args[0].(*ast.BasicLit)
+							regexps = append(regexps, fmt.Sprintf("mkRegexp %s %s %s %s", q(dir), q(encl), b(strings.HasPrefix(t, "regexp.Must")), b(isLit)))
+						}
 						if id, ok := v.Fun.(*ast.Ident); ok && pass == 1 && id.Name == "panic" && len(v.Args) == 1 {
 							typed := false
 							if cl, ok := v.Args[0].(*ast.CompositeLit); ok {
@@ -434,8 +440,11 @@ func main() {
 	sinkQualified = map[string]bool{"api.Build": true, "api.Transform": true, "api.Context": true, "bundler.ScanBundle": true, "linker.Link": true,
 		"api.FormatMessages": true, "api.AnalyzeMetafile": true, "cli.Run": true, "cli.ParseBuildOptions": true, "cli.ParseTransformOptions": true}
 	sinkSuffix = []string{"Compile", "Rebuild", "Watch", "Serve", "Dispose", "Cancel"}
-	for _, dir := range []string{"pkg/api", "cmd/esbuild", "pkg/cli"} {
+	for _, dir := range []string{"pkg/api", "cmd/esbuild", "pkg/cli", "internal/resolver", "internal/config", "internal/helpers", "internal/logger", "internal/fs", "internal/cache", "internal/js_printer", "internal/css_printer", "internal/sourcemap", "internal/renamer", "internal/graph"} {
 		scan(dir)
+	}
+	if len(regexps) < 4 {
+		die("only %d regexp compile sites found", len(regexps))
 	}
 	if len(serviceSpawns) < 20 {
 		die("only %d goroutine spawn sites found in pkg/api, cmd/esbuild, pkg/cli", len(serviceSpawns))
@@ -459,6 +468,7 @@ func main() {
 	sb.WriteString("From Coq Require Import List String Bool.\nImport ListNotations.\nOpen Scope string_scope.\n\n")
 	sb.WriteString("Record spawn := mkSpawn {\n  sp_pkg : string; sp_func : string; sp_ord : nat; sp_target : string;\n  sp_resolved : bool; sp_recover : nat; sp_sinks : list string }.\n")
 	sb.WriteString("Record entry := mkEntry {\n  en_pkg : string; en_func : string; en_exported : bool; en_ctor : string; en_recover_before : bool }.\n")
+	sb.WriteString("Record regexpsite := mkRegexp {\n  re_pkg : string; re_func : string; re_must : bool; re_const : bool }.\n")
 	sb.WriteString("Record panicsite := mkPanic {\n  pa_pkg : string; pa_func : string; pa_typed : bool; pa_text : string }.\n\n")
 	emit := func(name, typ string, items []string) {
 		if len(items) == 0 {
@@ -470,6 +480,7 @@ func main() {
 	emit("spawn_sites", "spawn", spawns)
 	emit("service_spawn_sites", "spawn", serviceSpawns)
 	emit("lexer_entries", "entry", entries)
+	emit("regexp_sites", "regexpsite", regexps)
 	emit("panic_sites", "panicsite", panics)
 	if err := os.MkdirAll(outdir, 0o755); err != nil {
 		die("%v", err)
